@@ -192,19 +192,19 @@ impl Selector {
         for component in &self.components {
             match component {
                 SelectorComponent::Class(_) => {
-                    result.class += 1;
+                    result.class = result.class.saturating_add(1);
                 }
                 SelectorComponent::Element(_) => {
-                    result.typ += 1;
+                    result.typ = result.typ.saturating_add(1);
                 }
                 SelectorComponent::Hash(_) => {
-                    result.id += 1;
+                    result.id = result.id.saturating_add(1);
                 }
                 SelectorComponent::Star => {}
                 SelectorComponent::CombChild => {}
                 SelectorComponent::CombDescendant => {}
                 SelectorComponent::NthChild { sel, .. } => {
-                    result.class += 1;
+                    result.class = result.class.saturating_add(1);
                     result += &sel.specificity();
                 }
             }
